@@ -13,7 +13,7 @@ from fractions import Fraction
 import numpy as np
 
 from .. import core
-from ..core import Check, MachineryError, run_tlc
+from ..core import pyf, Check, MachineryError, run_tlc
 
 ULP = 2.0 ** -52
 
@@ -40,7 +40,7 @@ def run(tier, seed):
     import TidalPy  # noqa
     from TidalPy.tides import love1d as L
     from TidalPy import tides as T
-    fam = {"jit": lambda f: f, "py": lambda f: f.py_func}
+    fam = {"jit": lambda f: f, "py": lambda f: pyf(f)}
     TOL = 8 * ULP
     worst = {}
 
@@ -84,7 +84,7 @@ def run(tier, seed):
             Jarr, marr = np.array([Jc, Jc]), np.array([m_exp, m_exp])
             keep = (Jarr.copy(), arr.copy(), marr.copy())
             for rep in range(2):
-                for tag, w in (("array", lambda f: f), ("array/py", lambda f: f.py_func)):
+                for tag, w in (("array", lambda f: f), ("array/py", lambda f: pyf(f))):
                     cmp("complex_love_general", l, w(L.complex_love_general)(Jarr, arr, marr, l)[0], k_exp,
                         dict(det, scale=sc, impl=tag, repeat=rep))
                     if l == 2:
